@@ -33,6 +33,14 @@ type LoopContract struct {
 	Splits    []SplitSpec
 }
 
+// AssertAt: a cut assertion at the n-th phi (in block order) that merges the source variable Local.
+type AssertAt struct {
+	Local string
+	N     int
+	C     Clause
+	Cut   bool // "cut": hypotheses contributed by earlier calls are forgotten after this point
+}
+
 type LetDef struct {
 	Name string
 	E    Expr
@@ -48,10 +56,7 @@ type FuncContract struct {
 	Modifies []Expr
 	Splits   []SplitSpec
 	Loops    map[int]*LoopContract
-	Asserts  []struct {
-		Local string
-		C     Clause
-	}
+	Asserts  []AssertAt
 	Trusted  bool
 	Reveal   map[string]bool
 	Labels   *LabelDecl
@@ -73,7 +78,7 @@ type ContractSet struct {
 	Macros map[string]*Macro
 }
 
-var clauseKeywords = map[string]bool{"label": true, "requires": true, "ensures": true, "let": true, "split": true, "modifies": true,
+var clauseKeywords = map[string]bool{"cut": true, "label": true, "requires": true, "ensures": true, "let": true, "split": true, "modifies": true,
 	"loop": true, "assert": true, "trusted": true, "pure": true, "dyntypes": true}
 
 func LoadContracts(files []string) (*ContractSet, error) {
@@ -339,20 +344,25 @@ func parseClause(fc *FuncContract, kw, rest, pos string) error {
 			ts = append(ts, strings.TrimSpace(p))
 		}
 		fc.DynTypes[strings.TrimSpace(rest[:i])] = ts
-	case "assert":
-		// assert <local> : expr
+	case "assert", "cut":
+		// assert <local> <n> : expr     (at the n-th merge point of source variable <local>)
 		i := strings.Index(rest, ":")
 		if i < 0 {
-			return fmt.Errorf("assert needs '<local> : expr'")
+			return fmt.Errorf("assert needs '<local> <n> : expr'")
+		}
+		f := strings.Fields(rest[:i])
+		if len(f) != 2 {
+			return fmt.Errorf("assert needs '<local> <n> : expr'")
+		}
+		n, err := strconv.Atoi(f[1])
+		if err != nil {
+			return err
 		}
 		e, err := ParseExpr(rest[i+1:])
 		if err != nil {
 			return err
 		}
-		fc.Asserts = append(fc.Asserts, struct {
-			Local string
-			C     Clause
-		}{strings.TrimSpace(rest[:i]), Clause{Label: strings.TrimSpace(rest[:i]), E: e, Src: rest[i+1:], Pos: pos}})
+		fc.Asserts = append(fc.Asserts, AssertAt{Local: f[0], N: n, Cut: kw == "cut", C: Clause{Label: f[0] + "." + f[1], E: e, Src: strings.TrimSpace(rest[i+1:]), Pos: pos}})
 	case "loop":
 		f := strings.Fields(rest)
 		if len(f) < 2 {
